@@ -2,6 +2,7 @@
 use super::*;
 use crate::util::*;
 use cosmwasm_std::Decimal;
+use proptest::strategy::Strategy;
 
 pub struct C05 {
     nontrivial: bool,
@@ -30,6 +31,7 @@ pub fn profile(t: Tier) -> Profile {
     p.donate = 0;
     p.params = 3;
     p.prefix_bonds = 2..4;
+    p.prefix_slash_pct = 70;
     p.len = 3..16;
     long(p, t)
 }
@@ -39,10 +41,19 @@ pub fn prop() -> HistProp {
         id: ID,
         rule: "generated short histories (bond both tokens, slash 0.1%-50%, one or more fee-path operations: bond, unbond, convert in both directions, with amounts from 1 unit to the whole balance / pool, fee and threshold from grids and random values); the credited result is compared with the exact no-fee and maximal-fee results and the post-state peg gap is bounded; non-trivial = a fee was actually charged; classes record which cap bound; distinct by hash of the case",
         profile,
-        cfgs: cfg_strategy,
+        cfgs: || {
+            // the fee only exists below the threshold: bias the threshold towards 1
+            (cfg_strategy(), 0u8..4).prop_map(|(mut c, k)| {
+                if k > 0 && c.threshold.atomics() < ONE * 9 / 10 {
+                    c.threshold = Dec::new(ONE);
+                }
+                c
+            }).boxed()
+        },
         quick: 4000,
         thorough: 100000,
         mk: |_, _, _| Box::new(C05 { nontrivial: false }),
+        extra: None,
     }
 }
 
